@@ -41,3 +41,76 @@ Proof.
   intros f m. unfold validate_args, gen_validate_args, is_some'.
   destruct (f_this_commit f), (f_at_least f), (f_again f), (uses_git m), (current_commit m); reflexivity.
 Qed.
+
+(* ---------------------------------------------------------------------------------------------
+   RunExperiment._retrieve_most_relevant_existing_version: the model's `select` is the method
+   TRANSLATED from the working tree (gen_sel_top / gen_sel_classify / gen_sel_closest):
+   the same classification of every version, the same update of the loop state
+   (selected_version, closest_distance) for every ancestor version, the same choice of what is returned. *)
+Section SelectTie.
+  Variable is_ancestor : cid -> cid -> bool.
+  Variable get_distance : cid -> cid -> N.
+
+  (* the first loop, driven by the translated per-version decision *)
+  Definition classify_by_gen (h : cid) (acc : list version * list version) (v : version) : list version * list version :=
+    let '(ancs, nulls) := acc in
+    match gen_sel_classify (is_none (commit v)) (match commit v with Some c => is_ancestor h c | None => false end) with
+    | 0 => (ancs, nulls ++ [v])
+    | 1 => (ancs ++ [v], nulls)
+    | _ => (ancs, nulls)
+    end.
+
+  Lemma classify_tie : forall h vs ancs nulls,
+    classify is_ancestor h vs ancs nulls = fold_left (classify_by_gen h) vs (ancs, nulls).
+  Proof.
+    intros h vs. induction vs as [|v rest IH]; intros ancs nulls; cbn [classify fold_left]; [reflexivity|].
+    unfold classify_by_gen at 2, gen_sel_classify.
+    destruct (commit v) as [c|]; cbn [is_none].
+    - destruct (is_ancestor h c); apply IH.
+    - apply IH.
+  Qed.
+
+  (* one iteration of the second loop, driven by the translated decision over the loop state *)
+  Definition closest_by_gen (h : cid) (st : option (version * N)) (v : version) : option (version * N) :=
+    match commit v with
+    | None => st
+    | Some c =>
+      let d := get_distance h c in
+      let cd := match st with Some (_, x) => x | None => 0 end in
+      let tss := match st with Some (s, _) => ts s | None => 0 end in
+      match gen_sel_closest (is_none st) d cd (ts v) tss with
+      | 0 => st
+      | 1 => Some (v, d)
+      | _ => Some (v, cd)
+      end
+    end.
+
+  Lemma closest_tie : forall h st v, closest_step get_distance h st v = closest_by_gen h st v.
+  Proof.
+    intros h st v. unfold closest_step, closest_by_gen, gen_sel_closest.
+    destruct (commit v) as [c|]; [|reflexivity].
+    destruct st as [[s cd]|]; cbn [is_none orb]; [|reflexivity].
+    destruct (get_distance h c <? cd); [reflexivity|].
+    destruct ((get_distance h c =? cd) && (ts s <? ts v)); reflexivity.
+  Qed.
+
+  Lemma select_tie : forall m vs,
+    select is_ancestor get_distance m vs =
+    let lists := match m with Head h => fold_left (classify_by_gen h) vs ([], []) | _ => ([], []) end in
+    match gen_sel_top (uses_git m) (is_none (current_commit m)) (length (fst lists)) (length (snd lists)) (length vs) with
+    | 0 => latest vs
+    | 1 => match m with Head h => option_map fst (fold_left (closest_by_gen h) (fst lists) None) | _ => None end
+    | 2 => py_max_ts (snd lists)
+    | _ => None
+    end.
+  Proof.
+    intros m vs. unfold select, gen_sel_top.
+    destruct m as [| |h]; cbn [uses_git current_commit is_none negb]; try reflexivity.
+    rewrite classify_tie. destruct (fold_left (classify_by_gen h) vs ([], [])) as [ancs nulls]. cbn [fst snd].
+    destruct (length ancs) as [|n]; cbn [Nat.eqb Nat.ltb Nat.leb negb].
+    - destruct (Nat.eqb (length nulls) (length vs)); cbn [andb]; [|reflexivity].
+      destruct (length nulls); reflexivity.
+    - f_equal. clear. generalize (@None (version * N)). induction ancs as [|a rest IH]; intro st; cbn [fold_left]; [reflexivity|].
+      rewrite closest_tie. apply IH.
+  Qed.
+End SelectTie.
